@@ -214,6 +214,19 @@ func sharedFacts(work string, names []string) (map[string][]sharedSite, error) {
 							if v := isPkgVar(id); v != nil && isRefType(v.Type()) {
 								handled[id] = true
 								add(sharedSite{"pkgvar-refarg", v.Name(), where, "recv." + sel.Sel.Name})
+							} else if v != nil {
+								// a method called on a package-level value (an atomic, a mutex, a sync.Map, a
+								// struct with pointer-receiver methods): the call may write it
+								if selInfo, ok := p.TypesInfo.Selections[sel]; ok && selInfo.Kind() == types.MethodVal {
+									if fn, ok := selInfo.Obj().(*types.Func); ok {
+										if sig, ok := fn.Type().(*types.Signature); ok && sig.Recv() != nil {
+											if _, ptr := sig.Recv().Type().(*types.Pointer); ptr {
+												handled[id] = true
+												add(sharedSite{"pkgvar-method", v.Name(), where, "recv." + sel.Sel.Name})
+											}
+										}
+									}
+								}
 							}
 						}
 					}
